@@ -48,6 +48,28 @@ impl Encoder for RawEncoder {
     }
 }
 
+/// Encoder whose items are *lengths*: a small one is written out, a huge one only claims address
+/// space in the output buffer (nothing is touched, so a message above 4 GiB costs no memory).
+#[derive(Clone, Copy, Debug)]
+pub struct LenEncoder;
+impl Encoder for LenEncoder {
+    type Item = usize;
+    type Error = Status;
+    fn encode(&mut self, item: usize, dst: &mut EncodeBuf<'_>) -> Result<(), Status> {
+        if item <= 4096 {
+            dst.put_slice(&vec![0x07u8; item]);
+        } else {
+            dst.reserve(item);
+            // the bytes are never read: the encoder refuses the message by its length
+            unsafe { bytes::BufMut::advance_mut(dst, item) };
+        }
+        Ok(())
+    }
+    fn buffer_settings(&self) -> BufferSettings {
+        BufferSettings::new(8192, 1 << 40)
+    }
+}
+
 impl Decoder for RawDecoder {
     type Item = Vec<u8>;
     type Error = Status;
